@@ -75,7 +75,10 @@ pub(crate) fn check_toplevel_items_in_env(
 ) -> Vec<Diagnostic> {
     let mut diagnostics = vec![];
 
-    diagnostics.extend(check_unused_variables(items));
+    diagnostics.extend(check_unused_variables(
+        items,
+        env.vfs.file_src(vfs_path).map(|s| s.as_str()),
+    ));
     diagnostics.extend(check_unused_literals(items, env));
     diagnostics.extend(check_struct_fields(items, env));
     diagnostics.extend(check_hints(items, env));
